@@ -4,7 +4,7 @@
 (* /24 network, address, port, sequence number, liveness credit, live flag, revalidation list)   *)
 (* and, for serially applied operations, the operation label.                                   *)
 (*   C07 (state invariants, every event): sizes unique noSelf rightBucket ipBucket ipTable      *)
-(*        lists known noPanic                                                                   *)
+(*        known noPanic; "lists" (revalidation-list bookkeeping) is reported as drift only       *)
 (*   C18 (action properties, "op" events): noEviction fullKeeps removalCause succession         *)
 (*        recordVersion endpointClearsLive creditKept creditSpent creditExhausted               *)
 (* The statement does not fix the rate at which failed checks consume credit (the pinned code    *)
